@@ -1,4 +1,4 @@
-CONSTANTS Kinds = {"M","O","Q","E","CM","CO"} MaxLog = 5 MaxPush = 6 SliceLim = 2 ChanLim = 1 UseSeq = TRUE Tracked0 = FALSE MaxCrash = 1 Fixed = TRUE SimDepth = 14
+CONSTANTS Kinds = {"M","O","Q","E","CM","CO"} MaxLog = 5 MaxPush = 6 SliceLim = 2 ChanLim = 1 UseSeq = TRUE Tracked0 = FALSE MaxCrash = 1 Fixed = TRUE TooLongAt = 0 ChanTooLongAt = 0 DiffLimit = 0 ChanTLPush = FALSE SimDepth = 14
 INIT Init
 NEXT NextPairs
 VIEW View
